@@ -551,7 +551,7 @@ def run(cx):
         i = 0
         for a in ALL_BOXES:
             for b in ALL_BOXES:
-                for op in OPS:
+                for op in OPS + ["S0", "S1"]:
                     pairs.append(("p%d" % i, 0, (op, ("B",) + a, ("B",) + b)))
                     i += 1
         for a in ALL_BOXES:
